@@ -26,8 +26,8 @@ package main
 import (
 	"fmt"
 	"os"
-	"strconv"
 	"sort"
+	"strconv"
 	"strings"
 	"sync"
 	"time"
@@ -40,7 +40,7 @@ import (
 func init() { register("c17", runC17) }
 
 func runC17(e *Env) {
-	e.R.Rule = "(b) every interleaving, at mutex granularity, of W workers' take(nextChunkToSend)/finish(markChunkDone)/poll(trySendEnd) steps with the external steps V1 (verifyPending stored), V2 (verdict stored) and P (plan stored; V1 first, then V2 and P in either order) over the real sendFileState, for every chunk count n, bitmap, verification point (incl. none) and verification outcome (off/right/wrong) plus the no-report case; enumerated by re-execution (DFS over schedules; interchangeable idle workers are not distinguished and a worker does not repeat a take+poll cycle that changed nothing). Bound: quick n<=3, W<=2; thorough n<=4, W<=3; the bound is enumerated completely in each tier. (a) seeded traces of the real SendManifestMultiStream over loopback QUIC against a scripted receiver (1-3 files incl. empty ones, <=6 chunks, <=3 streams, report at once / inside the grace / after the grace / never, any bitmap, verification chunk, right or wrong hash, hold at send.verify.beforeHash, jitter at send.chunk.beforeFrame), judged per file from the hook event order. (c) seeded random Add/Next/Remove orders on the real HybridScheduler. distinct = (b) input x worker count x placement of the external steps among the takes x deciding step; (a) distinct per-file hook event orders; (c) distinct operation orders"
+	e.R.Rule = "(b) every interleaving, at mutex granularity, of W workers' take(nextChunkToSend)/finish(markChunkDone)/poll(trySendEnd) steps with the external steps V1 (verifyPending stored), V2 (verdict stored) and P (plan stored; V1 first, then V2 and P in either order) over the real sendFileState, for every chunk count n, bitmap, verification point (incl. none) and verification outcome (off/right/wrong) plus the no-report case; explored by re-execution (DFS over schedules, every prefix replayed on a fresh real state; a prefix is not extended when it reaches a combination of real dispatch state, worker states, delivered external steps and monitor state that was already expanded, nor beyond its first violation; interchangeable idle workers are not distinguished and a worker does not repeat a take+poll cycle that changed nothing; the number of interleavings covered is the number of root-to-end paths of the explored graph, cross-checked against one-by-one enumeration for W=1). Bound: quick n<=3 chunks, W<=2 workers; thorough n<=5, W<=3; the bound of the tier is explored completely (otherwise the run is inconclusive). (a) seeded traces of the real SendManifestMultiStream over loopback QUIC against a scripted receiver (1-3 files incl. empty ones, <=6 chunks, <=3 streams, report at once / inside the grace / after the grace / never, any bitmap, verification chunk, right or wrong hash, hold at send.verify.beforeHash, jitter at send.chunk.beforeFrame), judged per file from the hook event order. (c) seeded random Add/Next/Remove orders on the real HybridScheduler. distinct = (b) input x worker count x class of schedule end reached (report in time / late, deciding step finish or poll, verdict before plan, report after the end-of-file decision); (a) distinct per-file hook event orders per input; (c) distinct operation orders"
 	// VERIF_C17_PARTS=abc (development aid): run only the listed parts; the minimum-observation
 	// requirements of the parts that ran still apply
 	parts := os.Getenv("VERIF_C17_PARTS")
@@ -57,6 +57,33 @@ func runC17(e *Env) {
 			c17PartC(e)
 		}
 	}
+	// the orchestrator keeps the first few samples of a stage: interleave the parts
+	for i := 0; i < 8; i++ {
+		for _, part := range []string{"a", "b", "c"} {
+			if l := c17Samples[part]; i < len(l) {
+				e.R.Sample(l[i])
+			}
+		}
+	}
+}
+
+var (
+	c17SampleMu sync.Mutex
+	c17Samples  = map[string][]any{}
+)
+
+func c17Sample(part string, v any) {
+	c17SampleMu.Lock()
+	if len(c17Samples[part]) < 8 {
+		c17Samples[part] = append(c17Samples[part], v)
+	}
+	c17SampleMu.Unlock()
+}
+
+func c17SampleFront(part string, v any) {
+	c17SampleMu.Lock()
+	c17Samples[part] = append([]any{v}, c17Samples[part]...)
+	c17SampleMu.Unlock()
 }
 
 // ---------------------------------------------------------------------------
@@ -65,9 +92,9 @@ func runC17(e *Env) {
 // c17In is one dispatch input: what the receiver reports for an n-chunk file.
 type c17In struct {
 	N      int    `json:"chunks"`
-	Bitmap uint   `json:"bitmap"` // bit i set = receiver reports chunk i present
+	Bitmap uint   `json:"bitmap"`       // bit i set = receiver reports chunk i present
 	V      int    `json:"verify_chunk"` // == N: no verification point
-	Verify string `json:"verify"` // off | right | wrong
+	Verify string `json:"verify"`       // off | right | wrong
 	Report bool   `json:"report"`
 }
 
@@ -184,6 +211,37 @@ func (s c17Step) String() string {
 
 const c17MaxN = 6
 
+var c17ViolKeys = []string{"", "chunk:out-of-range", "chunk:double-dispatch", "chunk:sent-present-after-report", "chunk:taken-after-fileend",
+	"chunk:skipped-needed", "fileend:double", "fileend:chunks-in-flight", "fileend:before-verdict", "fileend:before-resend", "fileend:missing"}
+
+func c17ViolIdx(k string) uint8 {
+	for i, s := range c17ViolKeys {
+		if s == k {
+			return uint8(i)
+		}
+	}
+	panic("unknown key " + k)
+}
+
+// c17Key identifies a node of the search: the real dispatch state, the
+// workers' local states, which external steps happened and the monitor state.
+// Two schedule prefixes with equal keys have identical futures and verdicts.
+type c17Key struct {
+	snap        transfer.VerifC17Snap
+	ws          [3]uint8
+	hold        [3]int8
+	wflag       [3]uint8 // idle: 1 = last take+poll cycle changed nothing and nothing changed since; polling: 1 = nothing changed since the failed take
+	ext         uint8    // V1, V2, P happened
+	takeCnt     [c17MaxN]uint8
+	takeAfterP  [c17MaxN]uint8
+	takeAfterV2 [c17MaxN]uint8
+	inflight    int8
+	endCnt      uint8
+	mon         uint8 // workerBeforeP, reportAfterEnd, verdictBeforePlan, endBy poll
+	lateResend  uint8
+	viol        uint8
+}
+
 // c17Exec is one re-execution: the real state plus worker-local states and
 // the monitor.
 type c17Exec struct {
@@ -201,25 +259,20 @@ type c17Exec struct {
 	snap      transfer.VerifC17Snap
 
 	// monitor
-	trace       []c17Step
-	takeCnt     [c17MaxN]int
-	takeAfterP  [c17MaxN]int
-	takeAfterV2 [c17MaxN]int
-	inflight    int
-	endCnt      int
-	endPos      int
-	endBy       uint8
-	posV1       int
-	posV2       int
-	posP        int
-	workerBeforeP   bool // a worker step happened before P (late report)
-	takesBefore [3]int // number of takes before V1, V2, P
-	takes       int
-	lateResend  int
-	violKey     string
-	violWhat    string
-	violAt      int
-	erased      uint64
+	trace             []c17Step
+	takeCnt           [c17MaxN]int
+	takeAfterP        [c17MaxN]int
+	takeAfterV2       [c17MaxN]int
+	inflight          int
+	endCnt            int
+	endBy             uint8
+	workerBeforeP     bool // a worker step happened before P (late report)
+	reportAfterEnd    bool // V1 (or P without verification) came after the end-of-file decision
+	verdictBeforePlan bool
+	lateResend        int
+	violKey           string
+	violWhat          string
+	violAt            int
 }
 
 func (x *c17Exec) reset() {
@@ -232,13 +285,53 @@ func (x *c17Exec) reset() {
 	x.snap = x.st.Snapshot()
 	x.trace = x.trace[:0]
 	x.takeCnt, x.takeAfterP, x.takeAfterV2 = [c17MaxN]int{}, [c17MaxN]int{}, [c17MaxN]int{}
-	x.inflight, x.endCnt, x.endPos, x.endBy = 0, 0, -1, 0
-	x.posV1, x.posV2, x.posP = -1, -1, -1
-	x.workerBeforeP = false
-	x.takesBefore = [3]int{-1, -1, -1}
-	x.takes, x.lateResend = 0, 0
+	x.inflight, x.endCnt, x.endBy = 0, 0, 0
+	x.workerBeforeP, x.reportAfterEnd, x.verdictBeforePlan = false, false, false
+	x.lateResend = 0
 	x.violKey, x.violWhat, x.violAt = "", "", -1
-	x.erased = 0
+}
+
+func (x *c17Exec) key() c17Key {
+	k := c17Key{snap: x.snap, ws: x.ws, inflight: int8(x.inflight), endCnt: uint8(x.endCnt), lateResend: uint8(x.lateResend), viol: c17ViolIdx(x.violKey)}
+	for w := 0; w < x.w; w++ {
+		switch x.ws[w] {
+		case 0:
+			if x.blocked[w] >= 0 && x.blocked[w] == x.ver {
+				k.wflag[w] = 1
+			}
+		case 1:
+			k.hold[w] = int8(x.hold[w])
+		case 2:
+			if x.verAtTake[w] == x.ver {
+				k.wflag[w] = 1
+			}
+		}
+	}
+	if x.v1 {
+		k.ext |= 1
+	}
+	if x.v2 {
+		k.ext |= 2
+	}
+	if x.p {
+		k.ext |= 4
+	}
+	for i := 0; i < c17MaxN; i++ {
+		k.takeCnt[i], k.takeAfterP[i], k.takeAfterV2[i] = uint8(x.takeCnt[i]), uint8(x.takeAfterP[i]), uint8(x.takeAfterV2[i])
+	}
+	if x.workerBeforeP {
+		k.mon |= 1
+	}
+	if x.reportAfterEnd {
+		k.mon |= 2
+	}
+	if x.verdictBeforePlan {
+		k.mon |= 4
+	}
+	if x.endCnt > 0 && x.endBy == c17Poll {
+		k.mon |= 8
+	}
+	return k
 }
 
 func (x *c17Exec) violate(key, what string) {
@@ -294,7 +387,7 @@ func (x *c17Exec) onEnd(by uint8) {
 		x.violate("fileend:double", "a second end-of-file decision was returned")
 		return
 	}
-	x.endPos, x.endBy = len(x.trace), by
+	x.endBy = by
 	if x.inflight > 0 {
 		x.violate("fileend:chunks-in-flight", fmt.Sprintf("end-of-file decided while %d handed-out chunk(s) were not finished", x.inflight))
 	}
@@ -331,7 +424,6 @@ func (x *c17Exec) apply(s c17Step) {
 		}
 		s.Out = int8(idx)
 		x.ws[w], x.hold[w] = 1, int(idx)
-		x.takes++
 		x.inflight++
 		i := int(idx)
 		if i >= x.in.N {
@@ -356,13 +448,12 @@ func (x *c17Exec) apply(s c17Step) {
 			x.takeAfterV2[i]++
 		}
 		if x.endCnt > 0 {
-			if x.posV1 > x.endPos && x.wrong() && i == x.in.V {
+			if x.reportAfterEnd && x.wrong() && i == x.in.V {
 				x.lateResend++
 			} else {
 				x.violate("chunk:taken-after-fileend", fmt.Sprintf("chunk %d handed out after the end-of-file decision", i))
 			}
 		}
-		x.erased = vk.Mix(x.erased ^ uint64(0x100+i))
 	case c17Finish:
 		if !x.p {
 			x.workerBeforeP = true
@@ -371,11 +462,9 @@ func (x *c17Exec) apply(s c17Step) {
 		x.inflight--
 		x.ws[w] = 0
 		x.blocked[w] = -1
-		x.erased = vk.Mix(x.erased ^ uint64(0x200+x.hold[w]))
 		if end {
 			s.Out = 1
 			x.onEnd(c17Finish)
-			x.erased = vk.Mix(x.erased ^ 0x700)
 		}
 	case c17Poll:
 		if !x.p {
@@ -386,25 +475,27 @@ func (x *c17Exec) apply(s c17Step) {
 		if end {
 			s.Out = 1
 			x.onEnd(c17Poll)
-			x.erased = vk.Mix(x.erased ^ 0x701)
 		}
 	case c17V1:
 		x.st.SetVerifyPending()
-		x.v1, x.posV1 = true, len(x.trace)
-		x.takesBefore[0] = x.takes
-		x.erased = vk.Mix(x.erased ^ 0x301)
+		x.v1 = true
+		if x.endCnt > 0 {
+			x.reportAfterEnd = true
+		}
 	case c17V2:
 		x.st.StoreVerdict(uint32(x.in.V), x.wrong())
-		x.v2, x.posV2 = true, len(x.trace)
-		x.takesBefore[1] = x.takes
-		x.erased = vk.Mix(x.erased ^ 0x302)
+		x.v2 = true
+		if !x.p {
+			x.verdictBeforePlan = true
+		}
 	case c17P:
 		if err := x.st.StorePlan(x.bmb, uint32(x.in.N), uint32(x.in.fsf()), uint32(x.in.V)); err != nil {
 			panic(err)
 		}
-		x.p, x.posP = true, len(x.trace)
-		x.takesBefore[2] = x.takes
-		x.erased = vk.Mix(x.erased ^ 0x303)
+		x.p = true
+		if !x.verifyOn() && x.endCnt > 0 {
+			x.reportAfterEnd = true
+		}
 	}
 	after := x.st.Snapshot()
 	if after != x.snap {
@@ -426,6 +517,7 @@ func (x *c17Exec) apply(s c17Step) {
 	x.trace = append(x.trace, s)
 }
 
+// finish is the check at the end of a schedule (no step enabled any more).
 func (x *c17Exec) finish() {
 	if x.endCnt == 0 {
 		x.violate("fileend:missing", "no end-of-file decision although every step that could change the state was taken")
@@ -440,29 +532,6 @@ func c17TraceString(tr []c17Step) string {
 	return strings.Join(parts, " ")
 }
 
-// c17Witness is the smallest violating schedule seen for a key.
-type c17Witness struct {
-	In       c17In  `json:"input"`
-	Workers  int    `json:"workers"`
-	Schedule string `json:"schedule"`
-	What     string `json:"what"`
-	Steps    int    `json:"steps"`
-	Class    string `json:"class"`
-}
-
-type c17BStats struct {
-	mu          sync.Mutex
-	execs       int64
-	steps       int64
-	maxDepth    int
-	erased      int64
-	byClass     map[string]int64
-	violClass   map[string]int64
-	wit         map[string]c17Witness
-	perBound    map[string]int64
-	inputsDone  int
-}
-
 func (x *c17Exec) class() string {
 	var p []string
 	switch {
@@ -473,15 +542,17 @@ func (x *c17Exec) class() string {
 	default:
 		p = append(p, "timely")
 	}
-	if x.endBy == c17Poll {
+	if x.endCnt == 0 {
+		p = append(p, "no-end")
+	} else if x.endBy == c17Poll {
 		p = append(p, "end-by-poll")
 	} else {
 		p = append(p, "end-by-finish")
 	}
-	if x.v2 && x.p && x.posV2 < x.posP {
+	if x.verdictBeforePlan {
 		p = append(p, "verdict-before-plan")
 	}
-	if x.posV1 >= 0 && x.endPos >= 0 && x.posV1 > x.endPos {
+	if x.reportAfterEnd {
 		p = append(p, "report-after-end")
 	}
 	if x.lateResend > 0 {
@@ -490,26 +561,327 @@ func (x *c17Exec) class() string {
 	return strings.Join(p, ",")
 }
 
-// c17Enumerate runs every schedule of (in, w) by re-execution.
-func c17Enumerate(in c17In, w int, agg *c17BStats, onLeaf func(x *c17Exec)) {
+// c17Witness is the smallest violating schedule seen for a key.
+type c17Witness struct {
+	Key      string `json:"key"`
+	In       c17In  `json:"input"`
+	Workers  int    `json:"workers"`
+	Schedule string `json:"schedule"`
+	What     string `json:"what"`
+	Steps    int    `json:"steps"`
+	Class    string `json:"class"`
+}
+
+type c17BStats struct {
+	mu          sync.Mutex
+	states      int64
+	transitions int64
+	reexec      int64
+	steps       int64
+	paths       float64
+	maxDepth    int
+	terminals   int64
+	byClass     map[string]float64
+	violClass   map[string]float64
+	wit         map[string]c17Witness
+	perBound    map[string]float64
+	statesBound map[string]int64
+	jobsDone    int
+	xchecks     int64
+	xcheckBad   int64
+	capped      int
+}
+
+type c17Edge struct {
+	step c17Step
+	to   int32
+}
+
+type c17Node struct {
+	edges    []c17Edge
+	depth    int32
+	terminal bool
+	viol     uint8 // first violation on every path into this node (part of the key), incl. the end-of-schedule check for terminals
+	mon      uint8 // class bits of the key (late, report after end, verdict before plan, end by poll)
+	class    string
+}
+
+// c17Graph is the result of exploring one (input, workers) pair.
+type c17Graph struct {
+	in          c17In
+	w           int
+	nodes       []c17Node
+	reexec      int64
+	steps       int64
+	transitions int64
+	xchecks     int64
+	xcheckBad   int64
+	capped      bool
+}
+
+const c17MaxNodes = 4_000_000
+
+// c17Explore expands every reachable node once. A node is reached by
+// re-executing its schedule prefix on a fresh real sendFileState; a prefix
+// that leads to an already expanded node is not extended (same key = same
+// future). Every 64th such revisit is expanded again and compared with the
+// recorded successors to check that the key really determines the future.
+func c17Explore(in c17In, w int) *c17Graph {
+	g := &c17Graph{in: in, w: w}
 	x := &c17Exec{in: in, w: w}
 	if in.Report {
 		x.bmb = []byte{byte(in.Bitmap)}
 	}
+	ids := map[c17Key]int32{}
+	var path []c17Step
+	replay := func() {
+		x.reset()
+		for _, s := range path {
+			x.apply(s)
+		}
+		g.reexec++
+		g.steps += int64(len(path))
+	}
+	var revisit uint64
+	var expand func(id int32, check bool)
+	expand = func(id int32, check bool) {
+		opts := append([]c17Step(nil), x.enabled(nil)...)
+		cut := false
+		if x.violKey != "" {
+			// a schedule is not extended beyond its first violation (the verdict is in)
+			opts = nil
+		} else if len(g.nodes) > c17MaxNodes {
+			// only matters for broken trees with unbounded behaviour
+			opts, cut, g.capped = nil, true, true
+		}
+		if len(opts) == 0 {
+			if !cut {
+				x.finish()
+			}
+			if check {
+				if !g.nodes[id].terminal || g.nodes[id].viol != c17ViolIdx(x.violKey) {
+					g.xcheckBad++
+				}
+				return
+			}
+			g.nodes[id].terminal = true
+			g.nodes[id].viol = c17ViolIdx(x.violKey)
+			g.nodes[id].class = x.class()
+			return
+		}
+		if check && len(opts) != len(g.nodes[id].edges) {
+			g.xcheckBad++
+			return
+		}
+		depth := len(path)
+		for k, s := range opts {
+			if k > 0 {
+				path = path[:depth]
+				replay()
+			}
+			x.apply(s)
+			g.steps++
+			applied := x.trace[len(x.trace)-1]
+			key := x.key()
+			cid, seen := ids[key]
+			if check {
+				e := g.nodes[id].edges[k]
+				if !seen || e.to != cid || e.step != applied {
+					g.xcheckBad++
+				}
+				continue
+			}
+			g.transitions++
+			if !seen {
+				cid = int32(len(g.nodes))
+				ids[key] = cid
+				g.nodes = append(g.nodes, c17Node{depth: int32(depth + 1), viol: key.viol, mon: key.mon})
+			}
+			g.nodes[id].edges = append(g.nodes[id].edges, c17Edge{step: applied, to: cid})
+			if !seen {
+				path = append(path[:depth], applied)
+				expand(cid, false)
+			} else {
+				revisit++
+				if revisit%64 == 0 {
+					g.xchecks++
+					path = append(path[:depth], applied)
+					expand(cid, true)
+				}
+			}
+		}
+		path = path[:depth]
+	}
+	x.reset()
+	g.reexec++
+	ids[x.key()] = 0
+	g.nodes = append(g.nodes, c17Node{})
+	expand(0, false)
+	return g
+}
+
+// c17Summarise counts the schedules (root-to-terminal paths) of the graph by
+// class and finds the shortest violating schedule per key.
+func (g *c17Graph) summarise(agg *c17BStats) {
+	n := len(g.nodes)
+	// paths into each node, in topological order (Kahn)
+	indeg := make([]int32, n)
+	for i := range g.nodes {
+		for _, e := range g.nodes[i].edges {
+			indeg[e.to]++
+		}
+	}
+	pathsTo := make([]float64, n)
+	pathsTo[0] = 1
+	queue := []int32{0}
+	visited := 0
+	var total float64
+	byClass := map[string]float64{}
+	violClass := map[string]float64{}
+	terminals := 0
+	maxDepth := 0
+	for len(queue) > 0 {
+		id := queue[0]
+		queue = queue[1:]
+		visited++
+		nd := &g.nodes[id]
+		if nd.terminal {
+			terminals++
+			total += pathsTo[id]
+			byClass[nd.class] += pathsTo[id]
+			if nd.viol != 0 {
+				violClass[c17ViolKeys[nd.viol]+" ["+nd.class+fmt.Sprintf(",realistic-input=%v", g.in.realistic())+"]"] += pathsTo[id]
+			}
+		}
+		for _, e := range nd.edges {
+			pathsTo[e.to] += pathsTo[id]
+			indeg[e.to]--
+			if indeg[e.to] == 0 {
+				queue = append(queue, e.to)
+			}
+		}
+	}
+	acyclic := visited == n
+	// shortest path to the first node of each violation key (BFS over edges)
+	dist := make([]int32, n)
+	prev := make([]int32, n)
+	pstep := make([]c17Step, n)
+	for i := range dist {
+		dist[i] = -1
+	}
+	dist[0] = 0
+	bq := []int32{0}
+	first := map[uint16]int32{} // (violation key, class bits) -> nearest node
+	for len(bq) > 0 {
+		id := bq[0]
+		bq = bq[1:]
+		if int(dist[id]) > maxDepth {
+			maxDepth = int(dist[id])
+		}
+		if v := g.nodes[id].viol; v != 0 {
+			fk := uint16(v)<<8 | uint16(g.nodes[id].mon)
+			if _, ok := first[fk]; !ok {
+				first[fk] = id
+			}
+		}
+		for _, e := range g.nodes[id].edges {
+			if dist[e.to] < 0 {
+				dist[e.to] = dist[id] + 1
+				prev[e.to] = id
+				pstep[e.to] = e.step
+				bq = append(bq, e.to)
+			}
+		}
+	}
+	wit := map[string]c17Witness{}
+	for fk, id := range first {
+		v := uint8(fk >> 8)
+		var steps []c17Step
+		for cur := id; cur != 0; cur = prev[cur] {
+			steps = append(steps, pstep[cur])
+		}
+		for i, j := 0, len(steps)-1; i < j; i, j = i+1, j-1 {
+			steps[i], steps[j] = steps[j], steps[i]
+		}
+		// re-execute the witness on a fresh real state
+		x := &c17Exec{in: g.in, w: g.w}
+		if g.in.Report {
+			x.bmb = []byte{byte(g.in.Bitmap)}
+		}
+		x.reset()
+		for _, s := range steps {
+			x.apply(s)
+		}
+		if len(x.enabled(nil)) == 0 {
+			x.finish()
+		}
+		key := c17ViolKeys[v]
+		if x.violKey != key {
+			agg.mu.Lock()
+			agg.xcheckBad++
+			agg.mu.Unlock()
+			continue
+		}
+		cl := x.class() + fmt.Sprintf(",realistic-input=%v", g.in.realistic())
+		wn := c17Witness{Key: key, In: g.in, Workers: g.w, Schedule: c17TraceString(x.trace), What: x.violWhat, Steps: len(steps), Class: cl}
+		if old, ok := wit[key+" ["+cl+"]"]; !ok || wn.Steps < old.Steps {
+			wit[key+" ["+cl+"]"] = wn
+		}
+	}
+	agg.mu.Lock()
+	defer agg.mu.Unlock()
+	if !acyclic {
+		agg.xcheckBad++
+	}
+	if g.capped {
+		agg.capped++
+	}
+	agg.states += int64(n)
+	agg.transitions += g.transitions
+	agg.reexec += g.reexec
+	agg.steps += g.steps
+	agg.paths += total
+	agg.terminals += int64(terminals)
+	agg.xchecks += g.xchecks
+	agg.xcheckBad += g.xcheckBad
+	if maxDepth > agg.maxDepth {
+		agg.maxDepth = maxDepth
+	}
+	for k, v := range byClass {
+		agg.byClass[k] += v
+	}
+	for k, v := range violClass {
+		agg.violClass[k] += v
+	}
+	for k, wn := range wit {
+		old, ok := agg.wit[k]
+		better := !ok || wn.Steps < old.Steps || (wn.Steps == old.Steps && (wn.In.N < old.In.N || (wn.In.N == old.In.N && wn.Workers < old.Workers)))
+		if better {
+			agg.wit[k] = wn
+		}
+	}
+	b := fmt.Sprintf("n%d/w%d", g.in.N, g.w)
+	agg.perBound[b] += total
+	agg.statesBound[b] += int64(n)
+	agg.jobsDone++
+}
+
+// c17Stateless enumerates every schedule of (in, w) one by one (no node is
+// ever merged); used on the small bound to cross-check the graph search.
+func c17Stateless(in c17In, w int) (leaves int64, viol map[string]int64) {
+	x := &c17Exec{in: in, w: w}
+	if in.Report {
+		x.bmb = []byte{byte(in.Bitmap)}
+	}
+	viol = map[string]int64{}
 	var stack, counts []int
 	var buf []c17Step
-	var execs, steps int64
-	maxDepth := 0
-	erased := map[uint64]struct{}{}
-	byClass := map[string]int64{}
-	violClass := map[string]int64{}
-	wit := map[string]c17Witness{}
 	for {
 		x.reset()
 		d := 0
 		for {
 			buf = x.enabled(buf)
-			if len(buf) == 0 {
+			if len(buf) == 0 || x.violKey != "" {
 				break
 			}
 			if d == len(stack) {
@@ -521,30 +893,10 @@ func c17Enumerate(in c17In, w int, agg *c17BStats, onLeaf func(x *c17Exec)) {
 			d++
 		}
 		x.finish()
-		execs++
-		steps += int64(d)
-		if d > maxDepth {
-			maxDepth = d
-		}
-		erased[x.erased] = struct{}{}
-		cl := x.class()
-		byClass[cl]++
-		if onLeaf != nil {
-			onLeaf(x)
-		}
+		leaves++
 		if x.violKey != "" {
-			vc := x.violKey + " [" + cl + fmt.Sprintf(",realistic-input=%v", in.realistic()) + "]"
-			violClass[vc]++
-			n := x.violAt + 1
-			if n > len(x.trace) {
-				n = len(x.trace)
-			}
-			old, ok := wit[x.violKey]
-			if !ok || n < old.Steps {
-				wit[x.violKey] = c17Witness{In: in, Workers: w, Schedule: c17TraceString(x.trace[:n]), What: x.violWhat, Steps: n, Class: cl}
-			}
+			viol[x.violKey]++
 		}
-		// next schedule
 		stack, counts = stack[:d], counts[:d]
 		for len(stack) > 0 && stack[len(stack)-1]+1 >= counts[len(stack)-1] {
 			stack, counts = stack[:len(stack)-1], counts[:len(counts)-1]
@@ -554,29 +906,7 @@ func c17Enumerate(in c17In, w int, agg *c17BStats, onLeaf func(x *c17Exec)) {
 		}
 		stack[len(stack)-1]++
 	}
-	agg.mu.Lock()
-	agg.execs += execs
-	agg.steps += steps
-	if maxDepth > agg.maxDepth {
-		agg.maxDepth = maxDepth
-	}
-	agg.erased += int64(len(erased))
-	for k, v := range byClass {
-		agg.byClass[k] += v
-	}
-	for k, v := range violClass {
-		agg.violClass[k] += v
-	}
-	for k, wn := range wit {
-		old, ok := agg.wit[k]
-		better := !ok || wn.In.N < old.In.N || (wn.In.N == old.In.N && (wn.Workers < old.Workers || (wn.Workers == old.Workers && wn.Steps < old.Steps)))
-		if better {
-			agg.wit[k] = wn
-		}
-	}
-	agg.perBound[fmt.Sprintf("n%d/w%d", in.N, w)] += execs
-	agg.inputsDone++
-	agg.mu.Unlock()
+	return
 }
 
 const (
@@ -591,13 +921,14 @@ func c17PartB(e *Env) {
 		e.R.Require(false, "C17(b): state snapshot out of date")
 		return
 	}
-	maxN, maxW := e.Pick(3, 4), e.Pick(2, 3)
+	maxN, maxW := e.Pick(3, 5), e.Pick(2, 3)
 	if v, err := strconv.Atoi(os.Getenv("VERIF_C17_MAXN")); err == nil && v > 0 { // development aid; a reduced bound fails the requirement below
 		maxN = v
 	}
 	if v, err := strconv.Atoi(os.Getenv("VERIF_C17_MAXW")); err == nil && v > 0 {
 		maxW = v
 	}
+	fullBound := maxN == e.Pick(3, 5) && maxW == e.Pick(2, 3)
 	inputs := c17Inputs(maxN)
 	type job struct {
 		in c17In
@@ -613,50 +944,118 @@ func c17PartB(e *Env) {
 	sort.SliceStable(jobs, func(i, j int) bool {
 		return jobs[i].in.N*10+jobs[i].w > jobs[j].in.N*10+jobs[j].w
 	})
-	agg := &c17BStats{byClass: map[string]int64{}, violClass: map[string]int64{}, wit: map[string]c17Witness{}, perBound: map[string]int64{}}
+	agg := &c17BStats{byClass: map[string]float64{}, violClass: map[string]float64{}, wit: map[string]c17Witness{}, perBound: map[string]float64{}, statesBound: map[string]int64{}}
 	start := time.Now()
 	var smu sync.Mutex
+	var slPaths, slGraphPaths float64
+	slMismatch := 0
 	vk.ParallelDo(len(jobs), 16, func(i int) {
 		j := jobs[i]
-		placements := map[string]struct{}{}
-		c17Enumerate(j.in, j.w, agg, func(x *c17Exec) {
-			placements[fmt.Sprintf("%d,%d,%d/%d", x.takesBefore[0], x.takesBefore[1], x.takesBefore[2], x.endBy)] = struct{}{}
-		})
-		for p := range placements {
-			e.R.Distinct(fmt.Sprintf("b:%s/w%d|%s", j.in, j.w, p))
+		g := c17Explore(j.in, j.w)
+		g.summarise(agg)
+		classes := map[string]int{}
+		var gp float64
+		for id := range g.nodes {
+			if g.nodes[id].terminal {
+				classes[g.nodes[id].class]++
+			}
 		}
-		if i%97 == 0 {
+		for c := range classes {
+			e.R.Distinct(fmt.Sprintf("b:%s/w%d|%s", j.in, j.w, c))
+		}
+		if j.w == 1 {
+			leaves, viol := c17Stateless(j.in, j.w)
+			// paths of this graph
+			one := &c17BStats{byClass: map[string]float64{}, violClass: map[string]float64{}, wit: map[string]c17Witness{}, perBound: map[string]float64{}, statesBound: map[string]int64{}}
+			g.summarise(one)
+			gp = one.paths
+			var gv, sv float64
+			for _, v := range one.violClass {
+				gv += v
+			}
+			for _, v := range viol {
+				sv += float64(v)
+			}
 			smu.Lock()
-			e.R.Sample(map[string]any{"part": "b", "input": j.in.String(), "workers": j.w, "external_step_placements": len(placements)})
+			slPaths += float64(leaves)
+			slGraphPaths += gp
+			if float64(leaves) != gp || gv != sv {
+				slMismatch++
+			}
 			smu.Unlock()
 		}
+		if i%131 == 0 {
+			c17Sample("b", map[string]any{"part": "b", "input": j.in.String(), "workers": j.w, "states": len(g.nodes), "transitions": g.transitions, "reexecutions": g.reexec})
+		}
 	})
-	e.R.EvalN(int(agg.execs))
-	for key, wn := range agg.wit {
-		e.R.Violate(key, wn.What+" (method-granularity interleaving over the real sendFileState; smallest schedule: "+wn.Schedule+")",
-			map[string]any{"part": "b", "input": wn.In, "input_str": wn.In.String(), "workers": wn.Workers, "schedule": wn.Schedule, "class": wn.Class},
-			map[string]any{"violating_schedules_by_class": c17Filter(agg.violClass, key)})
+	e.R.EvalN(int(agg.reexec))
+	// one violation per key; the witness shown first is the shortest schedule of the most
+	// relevant class (report in time and an input the repository's own receiver produces)
+	rank := func(w c17Witness) int {
+		r := 0
+		if !strings.HasPrefix(w.Class, "timely") {
+			r += 2
+		}
+		if !strings.Contains(w.Class, "realistic-input=true") {
+			r++
+		}
+		return r
 	}
-	e.R.SetExtra("b_interleavings_enumerated", agg.execs)
-	e.R.SetExtra("b_steps_executed", agg.steps)
+	best := map[string]c17Witness{}
+	byKey := map[string][]c17Witness{}
+	for _, wn := range agg.wit {
+		byKey[wn.Key] = append(byKey[wn.Key], wn)
+		old, ok := best[wn.Key]
+		if !ok || rank(wn) < rank(old) || (rank(wn) == rank(old) && wn.Steps < old.Steps) {
+			best[wn.Key] = wn
+		}
+	}
+	for key, wn := range best {
+		all := byKey[key]
+		sort.Slice(all, func(i, j int) bool { return all[i].Class < all[j].Class })
+		e.R.Violate(key, wn.What+" (method-granularity interleaving over the real sendFileState; shortest schedule with the report in time: "+wn.Schedule+"; input "+wn.In.String()+", "+fmt.Sprint(wn.Workers)+" worker(s))",
+			map[string]any{"part": "b", "input": wn.In, "input_str": wn.In.String(), "workers": wn.Workers, "schedule": wn.Schedule, "class": wn.Class},
+			map[string]any{"violating_interleavings_by_class": c17FilterF(agg.violClass, key), "shortest_schedule_per_class": all})
+	}
+	e.R.SetExtra("b_states_expanded", agg.states)
+	e.R.SetExtra("b_transitions_executed", agg.transitions)
+	e.R.SetExtra("b_schedule_prefixes_reexecuted", agg.reexec)
+	e.R.SetExtra("b_steps_executed_on_real_state", agg.steps)
+	e.R.SetExtra("b_interleavings_covered", agg.paths)
+	e.R.SetExtra("b_terminal_states", agg.terminals)
 	e.R.SetExtra("b_max_schedule_length", agg.maxDepth)
-	e.R.SetExtra("b_distinct_worker_erased_event_orders", agg.erased)
 	e.R.SetExtra("b_inputs", len(inputs))
-	e.R.SetExtra("b_input_x_workers_enumerated", agg.inputsDone)
-	e.R.SetExtra("b_bound", map[string]any{"max_chunks": maxN, "max_workers": maxW, "complete": agg.inputsDone == len(jobs)})
+	e.R.SetExtra("b_input_x_workers_explored", agg.jobsDone)
+	e.R.SetExtra("b_bound", map[string]any{"max_chunks": maxN, "max_workers": maxW, "complete": agg.jobsDone == len(jobs) && fullBound})
 	e.R.SetExtra("b_interleavings_by_bound", agg.perBound)
+	e.R.SetExtra("b_states_by_bound", agg.statesBound)
 	e.R.SetExtra("b_interleavings_by_class", agg.byClass)
 	e.R.SetExtra("b_violating_interleavings_by_class", agg.violClass)
+	e.R.SetExtra("b_key_determinism_checks", map[string]any{"revisits_reexpanded": agg.xchecks, "mismatches": agg.xcheckBad})
+	e.R.SetExtra("b_one_by_one_crosscheck_w1", map[string]any{"schedules_enumerated_one_by_one": slPaths, "paths_of_graph": slGraphPaths, "inputs_with_mismatch": slMismatch})
 	e.R.SetExtra("b_wall_s", time.Since(start).Seconds())
-	e.R.Sample(map[string]any{"part": "b", "interleavings": agg.execs, "inputs": len(inputs), "max_chunks": maxN, "max_workers": maxW,
-		"by_class": agg.byClass})
-	e.R.Require(agg.inputsDone == len(jobs) && agg.execs > 0, "C17(b): bound not fully enumerated")
-	e.R.Require(agg.byClass["timely,end-by-finish"] > 0 && agg.byClass["late,end-by-finish"] > 0, "C17(b): timely/late classes not both reached")
-	vk.Logf("c17(b): %d interleavings, %d inputs x workers, %.1fs", agg.execs, agg.inputsDone, time.Since(start).Seconds())
+	c17SampleFront("b", map[string]any{"part": "b", "states": agg.states, "transitions": agg.transitions, "reexecutions": agg.reexec, "interleavings_covered": agg.paths,
+		"inputs": len(inputs), "max_chunks": maxN, "max_workers": maxW, "by_class": agg.byClass})
+	e.R.Require(agg.jobsDone == len(jobs) && agg.states > 0 && fullBound && agg.capped == 0, "C17(b): bound not fully explored")
+	if agg.capped > 0 {
+		e.R.Inconcl(fmt.Sprintf("C17(b): %d searches hit the node cap", agg.capped))
+	}
+	e.R.Require(agg.xcheckBad == 0 && slMismatch == 0, fmt.Sprintf("C17(b): search self-checks failed (key determinism mismatches %d, one-by-one mismatches %d)", agg.xcheckBad, slMismatch))
+	if agg.xcheckBad != 0 || slMismatch != 0 {
+		e.R.Inconcl("C17(b): the node key does not determine the future or the path count disagrees with one-by-one enumeration")
+	}
+	cl := 0
+	for c, v := range agg.byClass {
+		if v > 0 && (strings.HasPrefix(c, "timely") || strings.HasPrefix(c, "late")) {
+			cl++
+		}
+	}
+	e.R.Require(cl >= 4, "C17(b): timely/late classes not reached")
+	vk.Logf("c17(b): %d states, %d transitions, %d re-executions, %.3g interleavings, %d inputs x workers, %.1fs", agg.states, agg.transitions, agg.reexec, agg.paths, agg.jobsDone, time.Since(start).Seconds())
 }
 
-func c17Filter(m map[string]int64, key string) map[string]int64 {
-	out := map[string]int64{}
+func c17FilterF(m map[string]float64, key string) map[string]float64 {
+	out := map[string]float64{}
 	for k, v := range m {
 		if strings.HasPrefix(k, key+" ") {
 			out[k] = v
@@ -700,7 +1099,7 @@ func c17PartC(e *Env) {
 			e.R.Violate(res.key, res.what, map[string]any{"part": "c", "seed": sp.seed, "concurrent": sp.conc, "ops": res.log}, nil)
 		}
 		if i < 2 || (sp.conc && i < 10) {
-			e.R.Sample(map[string]any{"part": "c", "concurrent": sp.conc, "keys": res.keys, "returned": res.returned, "ops": res.ops, "first_ops": c17Head(res.log, 14)})
+			c17Sample("c", map[string]any{"part": "c", "concurrent": sp.conc, "keys": res.keys, "returned": res.returned, "ops": res.ops, "first_ops": c17Head(res.log, 14)})
 		}
 	})
 	for h := range orders {
